@@ -2,6 +2,7 @@ import Rbdl
 import Rbdl.AlgDriver
 import Rbdl.GeomDriver
 import Rbdl.BalDriver
+import Rbdl.IterDriver
 import Rbdl.LuaDriver
 /-
   Line-protocol driver of the executable model (`rbdl_model`): reads the same case file as the
@@ -536,8 +537,26 @@ def doCsCall (d : DS) (name : String) (t : Toks) : Option (DS × String) :=
   | _ => none
 
 
+def doIterCall (d : DS) (name : String) (t : Toks) : Option (DS × String) :=
+  let alsoAll := fun (r : DS × String) (ls : List (String × String)) => ls.foldl (fun r p => also r d p.1 p.2) r
+  match name with
+  | "IK1T" => some (alsoAll (out d name (" ".intercalate d.impl)) (IterDriver.ik1Lines parseRat d.m d.w d.impl t.l))
+  | "IK2T" => some (alsoAll (out d name (" ".intercalate d.impl)) (IterDriver.ik2Lines parseRat d.m d.w d.impl t.l))
+  | "CAQT" => some (alsoAll (out d name (" ".intercalate d.impl)) (IterDriver.caqLines parseRat d.m d.w d.cset d.impl t.l))
+  | "CAQD" =>
+    (doCsCall d name t).map (fun r =>
+      if d.impl.isEmpty then r else
+      let (wts, _) := t.rats d.m.dofCount
+      match IterDriver.caqdModel d.m d.w d.st.q d.qd d.cset wts with
+      | some qd => alsoAll r (IterDriver.cert "CAQD.model" (" ".intercalate d.impl) (showList qd))
+      | none => also r d "CAQD.model.info" "singular")
+  | _ => none
+
 def doCall (d : DS) (t : Toks) : DS × String :=
   let (name, t) := t.next
+  match doIterCall d name t with
+  | some r => r
+  | none =>
   match doCsCall d name t with
   | some r => r
   | none =>
